@@ -86,7 +86,7 @@ def _native_calls(prog, wd, cs):
     warned = set()
     for m in re.finditer(r"native\.c:(\d+):\d+: warning: .*\[-W(shift-count-overflow|shift-count-negative|overflow|div-by-zero|"
                          r"shift-negative-value|shift-overflow=?2?)\]", w.stdout):
-        fm = re.search(r"\b(f\d+_\d+)\(", src_lines[int(m.group(1)) - 1])
+        fm = re.search(r"\b([fg]\d+_\d+)\(", src_lines[int(m.group(1)) - 1])
         if fm:
             warned.add(fm.group(1))
     res = []
@@ -107,24 +107,35 @@ def _native_calls(prog, wd, cs):
         if p.returncode != 0 or len(vals) != q[0]:
             raise common.Broken("native fragment program failed rc=%d: %s" % (p.returncode, p.stderr[-300:]))
         res.append([None if i in bad else v for i, v in enumerate(vals)])
-    callee = re.findall(r"out\(\(long\)(f\d+_\d+)\(", lines)
+    callee = re.findall(r"out\(\(long\)([fg]\d+_\d+)\(", lines)
     return [a if a == b and callee[i] not in warned else None for i, (a, b) in enumerate(zip(*res))]
 
 
 def run_fragment(ck, cc, d):
-    """Tie of the theorem `lower_correct` to this compiler.  For generated functions of fragment F1
-    (gen/c01frag.py: typed tree as expr.c builds it):
-      (1) the text `Lower.emitFunc` gives for the tree is byte-identical to what cproc-qbe emits;
-      (2) `CSem.evalC` agrees with gcc and clang (UBSan-clean) on sample arguments - validates the C semantics
-          the theorem is stated against (a disagreement marks the check broken, never a violation);
-      (3) the IL cproc-qbe really emitted, run under Spec/Qbe, returns evalC's value (the property itself).
+    """Tie of the theorems `lower_correct` (F1) and `lower2_correct` (F2) to this compiler.  For generated functions
+    of fragment F1 (`T f(params) { return E; }`) and of fragment F2 (bodies with declarations, assignments, ++/--,
+    if/else, while/do/for, break/continue, return; gen/c01frag.py: typed tree as expr.c/stmt.c/decl.c build it):
+      (1) the text `Lower.emitFunc` / `Lower2.emitFunc` gives for the tree is byte-identical to what cproc-qbe emits;
+      (2) `CSem.evalC` / `CSem2.runC` agrees with gcc and clang (UBSan-clean) on sample arguments - validates the C
+          semantics the theorems are stated against (a disagreement marks the check broken, never a violation);
+      (3) the IL cproc-qbe really emitted, run under Spec/Qbe, returns the C semantics' value (the property itself).
     A text difference with (3) intact is reported as `no-failing-input-found` naming the theorem."""
     n = 240 if ck.quick else 2500
-    st = {"functions": 0, "text-identical": 0, "calls-defined": 0, "calls-ub-skipped": 0, "il-runs": 0, "native-runs": 0}
+    n2 = 110 if ck.quick else 1500
+    st = {"functions": 0, "functions-F2": 0, "text-identical": 0, "calls-defined": 0, "calls-defined-F2": 0,
+          "calls-ub-skipped": 0, "il-runs": 0, "native-runs": 0}
     ophist = {}
+    stmthist = ck.cov.setdefault("fragment_F2_statement_histogram", {})
     for k, (targ, cs) in enumerate(progrun.TARGETS):
         funcs = c01frag.gen(ck.seed * 1009 + k, cs, n, prefix="f%d_" % k)
+        funcs2 = c01frag.gen2(ck.seed * 1009 + k, cs, n2, prefix="g%d_" % k)
+        for f in funcs2:
+            for kind, cnt in f[4].items():
+                stmthist[kind] = stmthist.get(kind, 0) + cnt
+        nf1 = len(funcs)
+        funcs = funcs + [f[:4] for f in funcs2]      # one translation unit: mkblock's counter runs on
         st["functions"] += len(funcs)
+        st["functions-F2"] += len(funcs2)
         for f in funcs:
             for op in re.findall(r"\((\w+) ", f[1]):
                 if op in OPS:
@@ -139,7 +150,7 @@ def run_fragment(ck, cc, d):
                                stdout=subprocess.PIPE, stderr=subprocess.STDOUT, text=True)
             if g.returncode == 0:
                 ck.violation({"kind": "valid-function-rejected", "program": bad[0], "target": targ, "status": r.returncode,
-                              "stderr": r.stderr[-600:], "what": "a valid function of fragment F1 is rejected (or the compiler crashed)"})
+                              "stderr": r.stderr[-600:], "what": "a valid function of fragment F1/F2 is rejected (or the compiler crashed)"})
                 return st, ophist
             raise common.Broken("gen/c01frag.py produced a function gcc rejects too: %s" % bad[0])
         model = _drv01(ck, ["--cs", "1" if cs else "0", "emit"], "\n".join(f[1] for f in funcs) + "\n").split("--\n")
@@ -158,7 +169,7 @@ def run_fragment(ck, cc, d):
                     raise common.Broken("drv_c01 eval: generated function is ill-typed for the model: %s -> %s" % (f[1], ev[j - 1]))
                 if m.group(2):
                     ck.violation({"kind": "model-output-not-wf", "function": f[0], "theorem": "CprocVerif.C01.emit_wf_full",
-                                  "what": "Lower.emitFunc output fails the IL validator"}, nofail=True)
+                                  "what": "Lower.emitFunc / Lower2.emitFunc output fails the IL validator"}, nofail=True)
                     return st, ophist
                 if m.group(3) == "ub":
                     st["calls-ub-skipped"] += 1
@@ -168,6 +179,8 @@ def run_fragment(ck, cc, d):
                 if not (il.startswith("ret ") and c01frag.ret_matches(c01frag.ret_type_of(f[1]), c, il.split()[1])):
                     raise common.Broken("theorem instance fails in the driver (model/driver out of sync): %s %s -> %s" % (f[1], a, ev[j - 1]))
                 calls.append((i, a))
+                if i >= nf1:
+                    st["calls-defined-F2"] += 1
                 rt = c01frag.ret_type_of(f[1])
                 v = c % (1 << (8 * c01frag.SIZE[rt]))
                 if c01frag.signed(rt) if rt != "c" else cs:
@@ -188,8 +201,8 @@ def run_fragment(ck, cc, d):
                 # in a constant subexpression that expr.c folded away (e.g. `1L << 65535` inside a ?: condition)
                 st["native-ub-folded-away"] = st.get("native-ub-folded-away", 0) + 1
             elif nat[q] != want[q]:
-                raise common.Broken("CSem.evalC disagrees with gcc/clang on %s%s: native %s, evalC %s" % (
-                    funcs[i][0], a, nat[q], want[q]))
+                raise common.Broken("%s disagrees with gcc/clang on %s%s: native %s, C semantics %s" % (
+                    "CSem.evalC" if i < nf1 else "CSem2.runC", funcs[i][0], a, nat[q], want[q]))
         if sum(1 for x in nat if x is None) > 0.2 * len(nat) + 5:
             raise common.Broken("too many calls undefined natively but defined for CSem.evalC")
         rc, err = progrun.compile_c(cc, targ, pp, pp + ".ssa")
@@ -208,11 +221,17 @@ def run_fragment(ck, cc, d):
             single = _frag_program([funcs[i]], [(0, a)])
             ck.violation({"kind": "fragment-behaviour-differs", "program": single, "target": targ,
                           "expected (C semantics, = gcc = clang)": want[q], "il_semantics": il[q] if q < len(il) else il[-1:],
-                          "what": "the IL emitted for a pure integer expression function returns a value other than the one C prescribes"})
+                          "what": ("the IL emitted for a pure integer expression function returns a value other than the one C prescribes"
+                                   if i < nf1 else
+                                   "the IL emitted for a function of fragment F2 (integer locals, assignments, if/else, loops) "
+                                   "returns a value other than the one C prescribes")})
             return st, ophist
         if differ:
             i = differ[0]
-            ck.violation({"kind": "lowering-model-differs", "theorem": "CprocVerif.C01.lower_correct (tie: Lower.emitFunc = qbe.c funcexpr)",
+            ck.violation({"kind": "lowering-model-differs",
+                          "theorem": ("CprocVerif.C01.lower_correct (tie: Lower.emitFunc = qbe.c funcexpr)" if i < nf1 else
+                                      "CprocVerif.C01.lower2_correct (tie: Lower2.emitFunc = stmt.c stmt / decl.c funcinit / "
+                                      "qbe.c funcexpr, funcstore, funcalloc, funcjnz, funclabel)"),
                           "function": funcs[i][0], "tree": funcs[i][1], "target": targ,
                           "cproc": real[i] if i < len(real) else None, "model": model[i],
                           "functions_differing": len(differ),
